@@ -9,6 +9,7 @@
 package sym
 
 import (
+	"time"
 	"encoding/json"
 	"fmt"
 	"os"
@@ -183,7 +184,37 @@ func Unwind(n int) {}
 // Sequentialised-concurrency hooks (engine only).
 func NumGo() int                     { panic("sym.NumGo: engine only") }
 func RunGo(i int) bool               { panic("sym.RunGo: engine only") }
-func RunUntilBlocked(f func()) bool { f(); return false }
+// RunUntilBlocked runs f and reports whether it blocked forever.  Natively f runs in its own
+// goroutine; whenever it has not finished for 60 ms it is taken to be blocked and the environment
+// registered with OnYield makes one step; once the environment says that nothing will happen any
+// more, f gets 400 ms to finish on its own (timers) before it is declared blocked.
+func RunUntilBlocked(f func()) (blocked bool) {
+	done := make(chan interface{}, 1)
+	go func() {
+		defer func() { done <- recover() }()
+		f()
+	}()
+	wait := func(d time.Duration) bool {
+		select {
+		case p := <-done:
+			if p != nil {
+				panic(p)
+			}
+			return true
+		case <-time.After(d):
+			return false
+		}
+	}
+	for step := 0; step < 16; step++ {
+		if wait(60 * time.Millisecond) {
+			return false
+		}
+		if yieldFn == nil || !yieldFn("blocked") {
+			return !wait(400 * time.Millisecond)
+		}
+	}
+	return !wait(400 * time.Millisecond)
+}
 
 type failer interface {
 	Fatalf(format string, args ...interface{})
@@ -226,6 +257,7 @@ func ReplayMain(t failer, harnesses map[string]func()) {
 
 func runCase(c *Case, f func()) (o Outcome) {
 	cur = c
+	yieldFn, clockSet = nil, false
 	out = &Outcome{Harness: c.Harness, Failures: []string{}, Observations: [][2]string{}}
 	reached = map[string]bool{}
 	defer func() {
@@ -268,9 +300,33 @@ func BoolToI64(b bool) int64 {
 	return 0
 }
 
-// Environment hooks of the sequentialised-concurrency harnesses (engine only; natively these
-// harnesses are replayed by dedicated tests).
-func SetNow(ns int64)                  {}
-func FireTimers() int                  { return 0 }
-func ArmedTimers() int                 { return 0 }
-func OnYield(f func(tag string) bool) {}
+// Environment hooks of the sequentialised-concurrency harnesses.  Under the engine a blocking
+// primitive (sync.Cond.Wait, ...) calls the function registered with OnYield: the environment
+// acts (other goroutines' effects) and says whether anything will ever happen again.  Natively
+// the code under test runs in a real goroutine and the environment is stepped whenever that
+// goroutine has made no progress for a while (see RunUntilBlocked).
+var (
+	yieldFn   func(tag string) bool
+	clockBase time.Time
+	clockNs   int64
+	clockSet  bool
+)
+
+func OnYield(f func(tag string) bool) { yieldFn = f }
+
+// SetNow sets the harness clock (nanoseconds).  Natively time cannot be set: the first call
+// defines the origin and later calls sleep until the requested instant has really passed.
+func SetNow(ns int64) {
+	if !clockSet {
+		clockSet, clockBase, clockNs = true, time.Now(), ns
+		return
+	}
+	if d := time.Duration(ns-clockNs) - time.Since(clockBase); d > 0 {
+		if d > 2*time.Second {
+			d = 2 * time.Second
+		}
+		time.Sleep(d)
+	}
+}
+func FireTimers() int  { time.Sleep(20 * time.Millisecond); return 0 } // real timers fire by themselves
+func ArmedTimers() int { return 0 }
